@@ -27,6 +27,10 @@ def _worker(args):
     from vf.nir2smt import Unsupported
 
     spec = load_spec(prop)
+    if os.environ.get("VERIF_CANARY"):
+        from vf.canary import apply_from_env
+
+        apply_from_env(spec)
     ctx = Ctx(prop, cfg, tier, seed, timeout_s=getattr(spec, "QUERY_TIMEOUT_S", 120.0))
     ctx.index = idx
     t0 = time.time()
@@ -110,7 +114,8 @@ def main(argv):
     discharged = [q for q in obligations if q["verdict"] == "unsat"]
     known = [e for e in load_known(prop) if e.get("status") == "known"]
     classify = getattr(spec, "classify", None)
-    os.makedirs(os.path.join(VERIF, "replays"), exist_ok=True)
+    rdir = os.environ.get("VERIF_REPLAY_DIR") or os.path.join(VERIF, "replays")
+    os.makedirs(rdir, exist_ok=True)
     new_viol = []
     known_hits = {}
     for v in violations:
@@ -121,7 +126,7 @@ def main(argv):
             known_hits.setdefault(hit["what"], []).append(v)
             continue
         h = hashlib.sha1(json.dumps(v, sort_keys=True, default=str).encode()).hexdigest()[:10]
-        path = os.path.join(VERIF, "replays", f"{prop}-{h}.json")
+        path = os.path.join(rdir, f"{prop}-{h}.json")
         with open(path, "w") as f:
             json.dump(dict(property=prop, tier=tier_eff, seed=seed, **v), f, indent=1, default=str)
         new_viol.append((v, path))
@@ -138,7 +143,7 @@ def main(argv):
         print("INCONCLUSIVE:", q["name"], q["verdict"], json.dumps(q["cfg"], default=str)[:200])
 
     wall = time.time() - t0
-    if tier != "replay":
+    if tier != "replay" and not os.environ.get("VERIF_NO_EVIDENCE"):
         write_evidence(prop, spec, tier, seed, results, queries, obligations, discharged, witnesses, unknown, violations,
                        new_viol, known_hits, errors, wall, len(cfgs))
     nviol = len(new_viol)
